@@ -169,10 +169,15 @@ def missing_display_names(value, text):
     leaves = {a for a in value.atoms(sp.Symbol) if isinstance(a, DimensionSymbol)}
     leaves |= {a.func for a in value.atoms(sp.core.function.AppliedUndef) if isinstance(a.func, DimensionSymbol)}
     out = []
-    for leaf in leaves:
+    seen = {}
+    for leaf in sorted(leaves, key=str):
         dn = getattr(leaf, "display_name", None)
         if dn and not re.search(r"(?<![A-Za-z_0-9])" + re.escape(dn) + r"(?![A-Za-z_0-9])", text):
             out.append(dn)
+        # two different symbols of one equation under one name: the rendering, read by its names, is another expression
+        if dn and dn in seen and seen[dn] != leaf:
+            out.append(f"{dn} [one name for two different symbols of this equation]")
+        seen.setdefault(dn, leaf)
     return sorted(out)
 
 
@@ -203,7 +208,7 @@ def check_file(relpath):
             continue
         missing = missing_display_names(m.value, text)
         if missing:
-            out.append({"name": name, "verdict": "candidate", "why": f"declared display names {missing} do not appear in the rendering", "file": relpath, "member": m.name,
+            out.append({"name": name, "verdict": "candidate", "why": f"declared display names {missing} do not appear in the rendering (or name two symbols at once)", "file": relpath, "member": m.name,
                         "text": text, "vals": None})
             continue
         out.append({"name": name + ":display-names", "verdict": "discharged", "trivial": True})
